@@ -43,6 +43,7 @@ type PrefixEntry struct {
 	Forced bool
 	Val    uint64
 	Excl   []uint64
+	What   string
 }
 
 type explorer struct {
@@ -104,6 +105,11 @@ func (m *Machine) pushLit(ex *explorer, lit *Term) {
 
 func (m *Machine) replayMismatch(ex *explorer, want decKind, what string) {
 	d := ex.decs[ex.pos]
+	if os.Getenv("GOSYM_DEBUG") != "" {
+		for i := 0; i <= ex.pos && i < len(ex.decs); i++ {
+			fmt.Fprintf(os.Stderr, "  dec %d: kind=%d alt=%d forced=%v %s\n", i, ex.decs[i].kind, ex.decs[i].alt, ex.decs[i].forced, ex.decs[i].what)
+		}
+	}
 	panic(fmt.Sprintf("internal: non-deterministic replay at decision %d: recorded kind %d (%s), now kind %d (%s)", ex.pos, d.kind, d.what, want, what))
 }
 
@@ -143,6 +149,9 @@ func (m *Machine) branch(c *Term, what string) bool {
 			panic(pathEnd{kind: endInfeasible, msg: "path condition unsatisfiable (byte domain empty)"})
 		}
 		d := decision{kind: dBranch, nalts: 2, what: what}
+		if t && f && m.Opts.Trace {
+			m.noteFork(what)
+		}
 		if t {
 			d.alt, d.lit, d.forced = 0, c, !f
 		} else {
@@ -213,6 +222,9 @@ func (m *Machine) branch(c *Term, what string) bool {
 		panic(pathEnd{kind: endInfeasible, msg: "path condition unsatisfiable"})
 	}
 	d := decision{kind: dBranch, nalts: 2, what: what}
+	if canT && canF && m.Opts.Trace {
+		m.noteFork(what)
+	}
 	if canT {
 		d.alt = 0
 		d.lit = c
@@ -438,7 +450,22 @@ func (m *Machine) assertHolds(c *Term, msg string, where string) {
 	ex := m.ex
 	notc := m.tt.Not(c)
 	var witness Model
-	if c.IsFalse() {
+	if t, f, ok := m.domDecide(c); ok && !c.IsConst() && (!f || (t || f)) {
+		// single-byte assertion decided by the front solver
+		if !f {
+			return // the negation has no value in the domain: holds
+		}
+		if v := m.tt.single8(c); v != nil && !m.dom.entangled(v) {
+			m.ensureModel()
+			m.patchModel(ex, notc)
+			if ex.model != nil {
+				witness = ex.model
+			}
+		}
+	}
+	if witness != nil {
+		// fallthrough to recording below
+	} else if c.IsFalse() {
 		witness = m.ensureModel()
 	} else if ex.model != nil && Eval(c, ex.model) != 1 {
 		witness = ex.model
@@ -623,7 +650,7 @@ func (m *Machine) donate(ex *explorer) []PrefixEntry {
 func exportPrefix(decs []decision) []PrefixEntry {
 	out := make([]PrefixEntry, len(decs))
 	for i, d := range decs {
-		out[i] = PrefixEntry{Kind: uint8(d.kind), Alt: d.alt, NAlts: d.nalts, Forced: true, Val: d.val}
+		out[i] = PrefixEntry{Kind: uint8(d.kind), Alt: d.alt, NAlts: d.nalts, Forced: true, Val: d.val, What: d.what}
 		if d.kind == dChoice {
 			// the receiver explores only this alternative
 			out[i].NAlts = d.alt + 1
@@ -635,7 +662,7 @@ func exportPrefix(decs []decision) []PrefixEntry {
 func importPrefix(p []PrefixEntry) []decision {
 	out := make([]decision, len(p))
 	for i, e := range p {
-		out[i] = decision{kind: decKind(e.Kind), alt: e.Alt, nalts: e.NAlts, forced: true, val: e.Val, resolved: true, exhausted: true, what: "imported"}
+		out[i] = decision{kind: decKind(e.Kind), alt: e.Alt, nalts: e.NAlts, forced: true, val: e.Val, resolved: true, exhausted: true, what: "imported:" + e.What}
 		if decKind(e.Kind) == dChoice {
 			out[i].nalts = e.Alt + 1
 		}
@@ -1048,7 +1075,17 @@ func (m *Machine) callMaybeMerge(caller *frame, fn *ssa.Function, args, env []va
 		return m.callFunction(caller, fn, args, env)
 	}
 	if !m.Opts.Merge && !m.singleVarCall(args, env) {
+		if os.Getenv("GOSYM_DEBUG2") != "" && m.ex.parent == nil {
+			if t, ok := args[0].(*Term); ok {
+				fmt.Fprintf(os.Stderr, "NOTCAND pos=%d %s arg=%s sup=%d\n", m.ex.pos, fn.Name(), t.String(), len(m.tt.supportOf(t).vars))
+			}
+		}
 		return m.callFunction(caller, fn, args, env)
+	}
+	if os.Getenv("GOSYM_DEBUG2") != "" && m.ex.parent == nil {
+		if t, ok := args[0].(*Term); ok {
+			fmt.Fprintf(os.Stderr, "CAND pos=%d %s arg=%s\n", m.ex.pos, fn.Name(), t.String())
+		}
 	}
 	ex := m.ex
 	m.Stats.Decisions++
@@ -1324,4 +1361,11 @@ func (m *Machine) singleVarCall(args, env []value) bool {
 		}
 	}
 	return v != nil
+}
+
+func (m *Machine) noteFork(what string) {
+	if m.solverWhat == nil {
+		m.solverWhat = map[string]int{}
+	}
+	m.solverWhat["FORK "+what]++
 }
